@@ -314,7 +314,8 @@ def outer (g : Graph) (rev : Bool) (rt : RootType) (st : SortType) :
 
 /-- `CuthillMcKee::compute(layers, graph, reverse, r_type, s_type)`; `none` = abort -/
 def compute (g : Graph) (rev : Bool) (rt : RootType) (st : SortType) : Option (List Nat × List Nat) :=
-  match outer g rev rt st (g.nDom + 1) [] (Array.replicate g.nDom false) [0] with
+  if g.nDom = 0 then none   -- `Permutation perm(0)` aborts: "cannot create empty permutation"
+  else match outer g rev rt st (g.nDom + 1) [] (Array.replicate g.nDom false) [0] with
   | none => none
   | some (perm, layers) => some (perm, layers ++ [g.nDom])
 
